@@ -182,7 +182,9 @@ impl GraphBlock {
                     "{} {}\n",
                     // Markdown has six heading levels: seven or more "#" would be a paragraph
                     "#".repeat((*level as usize).min(6)),
-                    inlines_to_markdown(inlines, options)
+                    // a heading is one line: text that came from several lines (an item's text
+                    // turned into a heading) is joined by spaces
+                    inlines_to_markdown(inlines, options).replace('\n', " ")
                 )
             }
             GraphBlock::HorizontalRule => format!("{}\n", "-".repeat(72)),
